@@ -404,7 +404,7 @@ impl WorldSys {
 			}
 		}
 		for i in 0..n {
-			if !self.held_events[i] && self.w.nodes[i].has_events() {
+			if !self.held_events[i] && !self.w.events_blocked[i] && self.w.nodes[i].has_events() {
 				v.push(Action::Events(i));
 			}
 		}
@@ -492,6 +492,19 @@ impl WorldSys {
 		}
 		// a held manager stays held through the on-chain settling phase (the lag is arbitrary); it is
 		// written only when nothing else is left to do
+		// a failing event handler recovers when nothing else is left to do
+		if v.is_empty() && self.finished {
+			for i in 0..n {
+				if self.w.fail_terminal[i] {
+					self.w.fail_terminal[i] = false;
+					self.w.events_blocked[i] = false;
+					if self.w.nodes[i].has_events() {
+						v.push(Action::Events(i));
+					}
+					break;
+				}
+			}
+		}
 		if v.is_empty() && self.finished && self.events_held_through_settle {
 			for i in 0..n {
 				if self.held_events[i] {
